@@ -242,6 +242,17 @@ class Session:
         self.emit(ev)
         return val
 
+    def assign(self, a, mu=ABSENT, sigma=ABSENT):
+        """The caller sets public attributes of a rating object."""
+        ev = {"op": "assign", "a": self.enc(a)}
+        if mu is not ABSENT:
+            a.mu = mu
+        if sigma is not ABSENT:
+            a.sigma = sigma
+        ev["a_after"] = self.enc(a)
+        ev["out"] = {"kind": "ok", "exc": "", "value": self.enc(None)}
+        self.emit(ev)
+
     def sort(self, xs, group="", role=""):
         ev = {"op": "sorted", "arg": self.enc(xs),
               "ords": self.enc([x.ordinal() for x in xs])}
